@@ -2602,6 +2602,50 @@ def hashmap_scenarios(rng, count, exhaustive_pairs=True):
                     b.print(tup(lit("len"), inv(b.v("m"), "len")))
                     b.print(tup(lit("insert after"), inv(b.v("m"), "insert", lit(2), lit("two")), inv(b.v("m"), "get", lit(2)), inv(b.v("m"), "len")))
                     out.append(("mapself:%s:%s:%s" % (kn, filled, first), b.toks))
+        # the VALUE of an existing entry is replaced by whatever is inserted, also when the new value is `==` to the old one but
+        # distinguishable from it (0 / -0, equal containers that are different objects): the entry holds the new object afterwards
+        valpairs = {"zero-negzero": (lambda: lit(0), lambda: un("-", lit(0))), "negzero-zero": (lambda: un("-", lit(0)), lambda: lit(0)),
+                    "nan-nan": (lambda: bin_("/", lit(0), lit(0)), lambda: bin_("/", lit(0), lit(0))), "nil-nil": (lambda: lit(None), lambda: lit(None)),
+                    "equal-vecs": None, "equal-maps": None, "equal-tuples-of-vecs": None, "same-vec-twice": None}
+        for kn in ("one", "tuple", "str-built", "nil"):
+            for vn, pair in valpairs.items():
+                b = Builder()
+                b.var("m", mapnode())
+                P = pool(b)
+                if pair is None:
+                    if vn == "equal-maps":
+                        b.var("va", mapnode((lit(1), lit(2)))); b.var("vb", mapnode((lit(1), lit(2))))
+                    elif vn == "equal-tuples-of-vecs":
+                        b.var("ia", vec(lit(1))); b.var("ib", vec(lit(1))); b.var("va", tup(b.v("ia"), lit(0))); b.var("vb", tup(b.v("ib"), lit(0)))
+                    else:
+                        b.var("va", vec(lit(1))); b.var("vb", b.v("va") if vn == "same-vec-twice" else vec(lit(1)))
+                    first, second = (lambda: b.v("va")), (lambda: b.v("vb"))
+                else:
+                    first, second = pair
+                b.print(tup(lit("first insert"), inv(b.v("m"), "insert", P[kn](), first())))
+                b.print(tup(lit("second insert"), inv(b.v("m"), "insert", P[kn](), second())))
+                b.print(tup(lit("holds"), inv(b.v("m"), "get", P[kn]()), inv(b.v("m"), "len")))
+                if pair is None:
+                    if vn == "equal-maps":
+                        b.expr(inv(b.v("vb"), "insert", lit("later"), lit(3)))
+                    elif vn == "equal-tuples-of-vecs":
+                        b.expr(inv(b.v("ib"), "push", lit("later")))
+                    else:
+                        b.expr(inv(b.v("vb"), "push", lit("later")))
+                    shown = (lambda: tup(inv(inv(b.v("m"), "get", P[kn]()), "len"), inv(inv(b.v("m"), "get", P[kn]()), "has_key", lit("later")),
+                                         inv(inv(b.v("m"), "get", P[kn]()), "has_key", lit("first changed")))) if vn == "equal-maps" else (lambda: inv(b.v("m"), "get", P[kn]()))
+                    b.print(tup(lit("after changing the second value"), shown()))
+                    if vn != "same-vec-twice":
+                        if vn == "equal-maps":
+                            b.expr(inv(b.v("va"), "insert", lit("first changed"), lit(4)))
+                        elif vn == "equal-tuples-of-vecs":
+                            b.expr(inv(b.v("ia"), "push", lit("first changed")))
+                        else:
+                            b.expr(inv(b.v("va"), "push", lit("first changed")))
+                        b.print(tup(lit("after changing the first value"), shown()))
+                if vn != "equal-maps":
+                    b.for_("k", inv(b.v("m"), "items")); b.print(tup(lit("~final"), b.v("k"))); b.end()
+                out.append(("mapval:%s:%s" % (kn, vn), b.toks))
     for k in range(count):
         b = Builder()
         plan = [(rng.choice(ops), rng.choice(names), rng.choice(names)) for _ in range(rng.randint(2, 7))]
